@@ -169,10 +169,16 @@ func (p *Program) ruleGeoAlgebra(c *Check) {
 		}
 	}
 	one := func(ce *casEval, f string, args ...*casPoly) *casPoly {
+		for _, a := range args {
+			if a == nil {
+				ce.fail("missing argument for %s", f)
+				return casAtom("?")
+			}
+		}
 		res := ce.fn(get(f), args)
-		if len(res) < 1 {
+		if len(res) < 1 || res[0] == nil {
 			ce.fail("no result of %s", f)
-			return nil
+			return casAtom("?")
 		}
 		return res[0]
 	}
@@ -436,5 +442,61 @@ func (p *Program) ruleCircleApproximation(c *Check) {
 		o := c.Bad("E14.circle", con, p.declPos(fn), "the vertices of the polygon approximation are not the ellipse centred on the circle's centre with the cardinal half-spans: planar predicates on the Circle would be answered for a different shape")
 		o.Expected = clip("X = "+wantX.String()+" ; Y = "+wantY.String(), 400)
 		o.Observed = clip("X = "+vx.String()+" ; Y = "+vy.String(), 400)
+	}
+}
+
+// ruleGeoScenarios (C14): for every centre within one degree of a pole and
+// every radius between 200 km and 5000 km the disc reaches over the pole, so
+// the rectangle must stop at the pole and span all longitudes.  Decided by the
+// interval interpreter with the inputs restricted to that scenario (branches
+// whose condition the intervals decide are followed on the decided side only).
+func (p *Program) ruleGeoScenarios(c *Check) {
+	fn := p.Func("geo", "RectFromCenter")
+	if fn == nil || p.Decl(fn) == nil {
+		c.Undecided("E14.pole", "anchor:geo.RectFromCenter", "", "function not found")
+		return
+	}
+	type want struct {
+		idx  int
+		v    float64
+		what string
+	}
+	for _, sc := range []struct {
+		name  string
+		lat   [2]float64
+		wants []want
+	}{
+		{"north pole", [2]float64{89, 90}, []want{{2, 90, "maxLat"}, {1, -180, "minLon"}, {3, 180, "maxLon"}}},
+		{"south pole", [2]float64{-90, -89}, []want{{0, -90, "minLat"}, {1, -180, "minLon"}, {3, 180, "maxLon"}}},
+	} {
+		ui := &uInterp{p: p}
+		args := []*uval{
+			{units: []unit{uDeg}, axis: axLat, lo: sc.lat[0], hi: sc.lat[1]},
+			{units: []unit{uDeg}, axis: axLon, lo: -180, hi: 180},
+			{units: []unit{uM}, lo: 2e5, hi: 5e6},
+		}
+		res := ui.fn(fn, args)
+		con := "geo.RectFromCenter@" + sc.name
+		if len(res) != 4 {
+			c.Undecided("E14.pole", con, p.declPos(fn), "four results expected")
+			continue
+		}
+		bad := ""
+		for _, w := range sc.wants {
+			v := res[w.idx]
+			if v == nil || math.Abs(v.lo-w.v) > 1e-9 || math.Abs(v.hi-w.v) > 1e-9 {
+				lo, hi := math.NaN(), math.NaN()
+				if v != nil {
+					lo, hi = v.lo, v.hi
+				}
+				bad = fmt.Sprintf("%s is not %g for every disc that reaches over the %s: derived interval [%g, %g]", w.what, w.v, sc.name, lo, hi)
+				break
+			}
+		}
+		if bad != "" {
+			c.Bad("E14.pole", con, p.declPos(fn), bad+" — a disc over the pole needs the rectangle to stop at the pole and to span all longitudes")
+		} else {
+			c.OK("E14.pole", con, p.declPos(fn), "centres within 1° of the pole, radii 200–5000 km: the latitude bound is the pole and the longitude bounds are -180 and 180")
+		}
 	}
 }
